@@ -228,6 +228,7 @@ func runCheck(cfg *config) int {
 		l.funcs[e.fnKey(fn)] = fn
 	}
 	loadGhostDecls(cs)
+	baseShapes := loadBaseline(cfg.verif)
 	var results []*funcResult
 	for _, c := range targets {
 		fn := l.funcs[c.Pkg+"::"+c.Func]
@@ -243,10 +244,45 @@ func runCheck(cfg *config) int {
 			}
 		}
 		if fn == nil {
-			results = append(results, &funcResult{Func: c.Pkg + "::" + c.Func, Reach: "function not found in the program (renamed or removed?)"})
+			why := "function not found in the program (renamed or removed?)"
+			// renamed or moved within its package? look for a function of the shape recorded with the baseline
+			if want := loadBaseline(cfg.verif).Shape[c.Pkg+"::"+c.Func]; want != "" {
+				var ks []string
+				for k := range l.funcs {
+					if strings.HasPrefix(k, c.Pkg+"::") {
+						ks = append(ks, k)
+					}
+				}
+				sort.Strings(ks)
+				for _, k := range ks {
+					if f := l.funcs[k]; f.Parent() == nil && f.Syntax() != nil && shapeHash(f) == want {
+						why += "; same shape found as " + k
+						break
+					}
+				}
+			}
+			results = append(results, &funcResult{Func: c.Pkg + "::" + c.Func, Reach: why})
 			continue
 		}
+		shape, locals := shapeOf(fn)
+		// same shape as on the unchanged tree but other local names: evaluate the contract's old names as the new ones
+		e.rename = nil
+		fk := c.Pkg + "::" + c.Func
+		if old := baseShapes.Locals[fk]; shape != "" && baseShapes.Shape[fk] == shape && len(old) == len(locals) {
+			for i := range old {
+				if old[i] != locals[i] {
+					if e.rename == nil {
+						e.rename = map[string]string{}
+					}
+					if _, dup := e.rename[old[i]]; !dup {
+						e.rename[old[i]] = locals[i]
+					}
+				}
+			}
+		}
 		r := e.verifyFunc(fn, c)
+		e.rename = nil
+		r.Shape, r.Locals = shape, locals
 		results = append(results, r)
 		if cfg.verbose {
 			fmt.Printf("  %-60s paths=%d returns=%d %s\n", c.Func, r.Paths, r.Returns, r.Reach)
